@@ -3,7 +3,7 @@ From Verif Require Import Lib.Base Model.Cfg Model.Url Model.Machine Model.Api P
 
 (* surrounding C0/space bytes and embedded tab/newline bytes never change the result (diagnostics off) *)
 Theorem C18_cleaning_congruence : forall idna_raw c, c_report c = false -> c_fail c = false ->
-  forall x y base, clean x = clean y ->
+  forall x y base, clean_sv (c_acceptInvalid c) x = clean_sv (c_acceptInvalid c) y ->
   BasicParser idna_raw c x base None None = BasicParser idna_raw c y base None None.
 Proof. exact clean_congruence. Qed.
 Print Assumptions C18_cleaning_congruence.
@@ -12,6 +12,11 @@ Theorem C18_tab_newline_irrelevant : forall x y t, Model.Sets.isTabOrNewline t =
   fst (remove_tabnl (x ++ t :: y)) = fst (remove_tabnl (x ++ y)).
 Proof. exact remove_tabnl_insert. Qed.
 Print Assumptions C18_tab_newline_irrelevant.
+
+(* on valid UTF-8 the removal is plain byte removal; on invalid UTF-8 a removed tab cannot join a broken sequence *)
+Theorem C18_removal_on_valid_utf8 : forall a s, Lib.Utf8.valid_utf8 s = true -> remove_tabnl_sv a s = remove_tabnl s.
+Proof. exact remove_tabnl_sv_valid. Qed.
+Print Assumptions C18_removal_on_valid_utf8.
 
 Example C18_nonvacuous : clean [32; 104; 9; 116; 10; 116; 112; 58; 32] = clean [104; 116; 116; 112; 58].
 Proof. vm_compute. reflexivity. Qed.
